@@ -334,6 +334,11 @@ impl Scope {
 }
 impl Callable for Scope {
     fn signature(&self, ctx: ScriptContextRef, args: &[Value]) -> Result<Type, Error> {
+        // a binding is evaluated lazily, but an ill-typed one must be rejected when the expression is loaded,
+        // not when (and if) a request makes it surface
+        for v in args[0].as_vec().iter() {
+            v.as_vec()[1].real_type_of(ctx.clone())?;
+        }
         let ctx = Self::make_context(args[0].as_vec(), ctx)?;
         let expr = args[1].type_of(ctx)?;
         Ok(expr)
